@@ -45,6 +45,13 @@ def make_diff(rng):
             lines = lines[:-1]
         else:
             lines.insert(k + 1, 'oops')
+    if rng.random() < 0.3:
+        # characters that other notions of "line" would split on, inside a hunk line
+        body = [i for i, l in enumerate(lines) if l[:1] in (' ', '+', '-') and not l.startswith(('---', '+++'))]
+        if body:
+            i = rng.choice(body)
+            extra = rng.choice(['\x0c', '\x0b', '\x1c', '\x85', '\u2028', '\u2029'] + (['\r'] if nlc == '\n' else []))
+            lines[i] = lines[i] + extra + rng.choice(['tail', '+x', '-y', ''])
     text = nlc.join(lines) + (nlc if rng.random() < 0.9 else '')
     try:
         raw = text.encode(enc or 'latin-1')
@@ -92,7 +99,7 @@ def run(run, replay=None):
                        'INVARIANT Idempotent\nINVARIANT NonDestructive\nCHECK_DEADLOCK FALSE\n',
            note='GenAll on all small trees: exact, additive, idempotent, non-destructive')
     cat = Catalog()
-    cat.note('abcdefghijklmnopqrstuvwxyz/\\@+- ')
+    cat.note('abcdefghijklmnopqrstuvwxyz/\\@+- \x0c\x0b\x1c\x85\u2028\u2029\r')
     cases = []
     for n in range(1500 if quick else 40000):
         d = build(rng)
